@@ -10,6 +10,7 @@ from __future__ import annotations
 import importlib
 import json
 import re
+import shutil
 import os
 import sys
 import time
@@ -64,6 +65,8 @@ def run_property(pid: str, tier: str, seed: int) -> int:
         if not ok:
             violations.append({"kind": "data", "name": d.name, "detail": detail, "input": None})
 
+    os.environ["VF_VC_DUMP"] = os.path.join(os.environ.get("VF_OUT_DIR") or HERE, "replays", pid, "open_vcs")
+    shutil.rmtree(os.environ["VF_VC_DUMP"], ignore_errors=True)
     # ------------------------------------------------------------- P: proof obligations
     # generated and solved per contract in child processes of this (z3-free) process: see vf/pyvc/driver.py
     from vf.pyvc.driver import run_jobs, as_oblig
@@ -117,7 +120,7 @@ def run_property(pid: str, tier: str, seed: int) -> int:
         solver_s += r["time"]
         by_backend[re.sub(r" cfg\d+( slow)?| \(second pass\)| rel\d| qf$", "", r["solver"] or "none")] += 1
         if not o.expect_sat and r["verdict"] != "unsat":
-            cl["bad"].append({"line": o.line, "path": o.path, "verdict": r["verdict"], "solver_s": round(r["time"], 1), "reason": r["reason"][:300], "model": r.get("model"), "text": o.text})
+            cl["bad"].append({"line": o.line, "path": o.path, "verdict": r["verdict"], "solver_s": round(r["time"], 1), "vc_file": r.get("vc_file"), "reason": r["reason"][:300], "model": r.get("model"), "text": o.text})
     proved, failed, dead_cover = [], [], []
     for name, cl in classes.items():
         if cl["cover"]:
